@@ -25,6 +25,9 @@ func TestMain(m *testing.M) {
 	if pure != nil {
 		pure.Close()
 	}
+	for _, x := range extra {
+		x.Close()
+	}
 	stat.Flush()
 	os.Exit(code)
 }
@@ -32,6 +35,8 @@ func TestMain(m *testing.M) {
 var (
 	startOnce  sync.Once
 	asm, pure  *opclient.Client
+	extra      []*opclient.Client // further build configurations the driver discovered in the tree's build constraints
+	extraNames []string
 	startError error
 )
 
@@ -52,6 +57,16 @@ func servers(tb skipFataler) (*opclient.Client, *opclient.Client) {
 		}
 		if pure, startError = opclient.Start(p); startError != nil {
 			return
+		}
+		for _, kv := range strings.Split(os.Getenv("VERIF_OPSERVER_EXTRA"), ",") {
+			if name, path, ok := strings.Cut(kv, "="); ok && path != "" {
+				c, err := opclient.Start(path)
+				if err != nil {
+					startError = err
+					return
+				}
+				extra, extraNames = append(extra, c), append(extraNames, name)
+			}
 		}
 		if !strings.Contains(asm.Info, "asm") || !strings.Contains(pure.Info, "purego") {
 			startError = fmt.Errorf("%w: op-servers report builds %q / %q", opclient.ErrHarness, asm.Info, pure.Info)
@@ -82,6 +97,15 @@ func both(t fataler, a, p *opclient.Client, line string) opclient.Reply {
 	}
 	if ra.Key() != rp.Key() {
 		t.Fatalf("assembly and purego builds disagree on %q:\n  asm:    %.300s\n  purego: %.300s", line, ra.Key(), rp.Key())
+	}
+	for i, x := range extra {
+		rx, err := x.CallLine(line)
+		if err != nil {
+			t.Fatalf("%v", err)
+		}
+		if rx.Key() != rp.Key() {
+			t.Fatalf("build configuration %s disagrees with the purego build on %q:\n  %s: %.300s\n  purego: %.300s", extraNames[i], line, extraNames[i], rx.Key(), rp.Key())
+		}
 	}
 	return ra
 }
